@@ -35,6 +35,13 @@ from esp_kconfiglib.report import KconfigReport  # noqa: E402
 
 _real_stderr = sys.stderr
 
+try:  # the harness's own evaluations are silent; a simulated node sets the verbosity its environment asks for
+    from esp_pylib.logger import log as _pylog
+
+    _pylog.set_verbosity("silent")
+except Exception:  # noqa: B902
+    pass
+
 
 @contextlib.contextmanager
 def env(**kv):
